@@ -55,6 +55,10 @@ def only_next(prog, chk):
     for k in inh:
         b = prog.bodies[k]
         rt = b.locals[0]["ty"]
-        if "RawAttribute" in str(b.ty(rt).get("s", "")):
+        fm = prog.fns.get(b.defp) or prog.fns.get(k) or {}
+        # a private helper of `next` (callable only inside the module, whose own lookups are decided by the lookup rule) is
+        # not a way for a user to get at an attribute; anything visible outside the crate is
+        visible = fm.get("pub", True) or fm.get("exported", True) or fm.get("reachable", True)
+        if "RawAttribute" in str(b.ty(rt).get("s", "")) and visible:
             bad.append(k.rsplit("::", 1)[-1])
-    chk.ob("exposure-paths", "MessageAttributesIter has no inherent method handing out attributes", not bad, detail=", ".join(bad), how="body table")
+    chk.ob("exposure-paths", "MessageAttributesIter has no inherent method visible to users that hands out attributes", not bad, detail=", ".join(bad), how="body table")
